@@ -314,4 +314,169 @@ theorem stageL_sound (S : St) (rel kz : Bool) (x y : Rat) (hcur : S.cur = (x, y)
       simp [hx, hy, stepCmd, vals, ho, e1, e2, filterMap_single, simp1, hcur]
   all_goals simp [stageL]
 
+theorem stageC_kinds (p a pc : Pt) (rx ry : Rat) (single kS : Bool) (k : Kind) (cs : List Coord) (hs : Shaped k cs) :
+    isQuad (stageC p a pc rx ry single kS k cs).2.1 = isQuad k ∧
+    (isCubic k = false → stageC p a pc rx ry single kS k cs = (none, k, cs)) := by
+  obtain ⟨hl, hz⟩ := hs
+  cases k <;> simp only [Kind.arity] at hl
+  case Z => exact absurd rfl hz
+  case C =>
+    obtain ⟨a1, b, c, d, e, f, rfl⟩ := len6 cs hl
+    simp only [stageC]
+    refine ⟨?_, fun h => by simp [isCubic] at h⟩
+    repeat' split
+    all_goals first | (simp only [isQuad]; done) | (simp only [isQuad]; decide)
+  case S =>
+    obtain ⟨a1, b, c, d, rfl⟩ := len4 cs hl
+    simp only [stageC]
+    refine ⟨?_, fun h => by simp [isCubic] at h⟩
+    repeat' split
+    all_goals first | (simp only [isQuad]; done) | (simp only [isQuad]; decide)
+  all_goals simp [stageC]
+
+theorem stageQ_kinds (p a pq : Pt) (rx ry : Rat) (single kT : Bool) (k : Kind) (cs : List Coord) (hs : Shaped k cs) :
+    isCubic (stageQ p a pq rx ry single kT k cs).2.1 = isCubic k ∧
+    (isQuad k = false → stageQ p a pq rx ry single kT k cs = (none, k, cs)) := by
+  obtain ⟨hl, hz⟩ := hs
+  cases k <;> simp only [Kind.arity] at hl
+  case Z => exact absurd rfl hz
+  case Q =>
+    obtain ⟨a1, b, c, d, rfl⟩ := len4 cs hl
+    simp only [stageQ]
+    refine ⟨?_, fun h => by simp [isQuad] at h⟩
+    repeat' split
+    all_goals first | (simp only [isCubic]; done) | (simp only [isCubic]; decide)
+  case T =>
+    obtain ⟨a1, b, rfl⟩ := len2 cs hl
+    simp only [stageQ]
+    refine ⟨?_, fun h => by simp [isQuad] at h⟩
+    repeat' split
+    all_goals first | (simp only [isCubic]; done) | (simp only [isCubic]; decide)
+  all_goals simp [stageQ]
+
+theorem start_nonM (S : St) (rel : Bool) (k : Kind) (cs : List Coord) (hk : k ≠ .M) :
+    (stepCmd S ⟨k, rel, vals cs⟩).1.start = S.start := by
+  unfold stepCmd
+  split <;> simp_all
+
+/-- result of the three stages on one spec state in step with the model -/
+structure RewriteOK (st : MSt) (S : St) (k : Kind) (rel : Bool) (cs : List Coord) (r : Rewritten) : Prop where
+  cur : (stepCmd S ⟨k, rel, vals cs⟩).1.cur = (r.ax, r.ay)
+  shaped : Shaped r.k r.cs
+  skip : r.skip = true → (stepCmd S ⟨k, rel, vals cs⟩).2.filterMap simp1 = [] ∧ (r.ax, r.ay) = S.cur
+  emit : r.skip = false → StageOK S rel k cs r.k r.cs ∧ (stepCmd S ⟨r.k, rel, vals r.cs⟩).1.lc = r.c ∧
+    (stepCmd S ⟨r.k, rel, vals r.cs⟩).1.lq = r.q
+
+theorem rewrite_sound (st : MSt) (S : St) (k : Kind) (rel single : Bool) (cs : List Coord) (ctx : Ctx)
+    (hs : Shaped k cs) (hcur : S.cur = (st.x, st.y))
+    (hc : isCubic k = true → S.lc = st.c) (hq : isQuad k = true → S.lq = st.q) :
+    RewriteOK st S k rel cs (rewrite st k rel single cs ctx) := by
+  have hz : k ≠ .Z := hs.2
+  have ha : endPoint st.x st.y (if rel then st.x else 0) (if rel then st.y else 0) k cs =
+      (stepCmd S ⟨k, rel, vals cs⟩).1.cur := by
+    rcases endPoint_eq S rel st.x st.y hcur k cs hs with h | h
+    · exact h
+    · exact absurd h hz
+  -- stage C
+  have hC := stageC_sound S rel single ctx.nextS st.x st.y hcur k cs hs
+  have hCk := stageC_kinds (st.x, st.y) (endPoint st.x st.y (if rel then st.x else 0) (if rel then st.y else 0) k cs)
+    (reflPt st.x st.y st.c) (if rel then st.x else 0) (if rel then st.y else 0) single ctx.nextS k cs hs
+  have hCs := stageC_shaped (st.x, st.y) (endPoint st.x st.y (if rel then st.x else 0) (if rel then st.y else 0) k cs)
+    (reflPt st.x st.y st.c) (if rel then st.x else 0) (if rel then st.y else 0) single ctx.nextS k cs hs
+  have epc : stageC (st.x, st.y) (endPoint st.x st.y (if rel then st.x else 0) (if rel then st.y else 0) k cs)
+      (reflPt st.x st.y st.c) (if rel then st.x else 0) (if rel then st.y else 0) single ctx.nextS k cs =
+      stageC (st.x, st.y) (endPoint st.x st.y (if rel then st.x else 0) (if rel then st.y else 0) k cs)
+      (refl (st.x, st.y) S.lc) (if rel then st.x else 0) (if rel then st.y else 0) single ctx.nextS k cs := by
+    cases hck : isCubic k with
+    | true => rw [reflPt_eq, hc hck]
+    | false => rw [hCk.2 hck, hC.2.2 hck]
+  rw [← epc] at hC
+  generalize hcr : stageC (st.x, st.y) (endPoint st.x st.y (if rel then st.x else 0) (if rel then st.y else 0) k cs)
+      (reflPt st.x st.y st.c) (if rel then st.x else 0) (if rel then st.y else 0) single ctx.nextS k cs = cr at hC hCk hCs
+  obtain ⟨c', k1, cs1⟩ := cr
+  simp only at hC hCk hCs
+  -- the end point is unchanged by stage C
+  have ha1 : endPoint st.x st.y (if rel then st.x else 0) (if rel then st.y else 0) k cs =
+      (stepCmd S ⟨k1, rel, vals cs1⟩).1.cur := by rw [ha, hC.1.cur]
+  -- stage Q
+  have hQ := stageQ_sound S rel single ctx.nextT st.x st.y hcur k1 cs1 hCs.1
+  have hQk := stageQ_kinds (st.x, st.y) (endPoint st.x st.y (if rel then st.x else 0) (if rel then st.y else 0) k cs)
+    (reflPt st.x st.y st.q) (if rel then st.x else 0) (if rel then st.y else 0) single ctx.nextT k1 cs1 hCs.1
+  have hQs := stageQ_shaped (st.x, st.y) (endPoint st.x st.y (if rel then st.x else 0) (if rel then st.y else 0) k cs)
+    (reflPt st.x st.y st.q) (if rel then st.x else 0) (if rel then st.y else 0) single ctx.nextT k1 cs1 hCs.1
+  have hae : endPoint st.x st.y (if rel then st.x else 0) (if rel then st.y else 0) k1 cs1 =
+      endPoint st.x st.y (if rel then st.x else 0) (if rel then st.y else 0) k cs := by
+    rcases endPoint_eq S rel st.x st.y hcur k1 cs1 hCs.1 with h | h
+    · rw [h, ha1]
+    · exact absurd h hCs.1.2
+  rw [hae] at hQ
+  have hqk1 : isQuad k1 = isQuad k := hCk.1
+  have epq : stageQ (st.x, st.y) (endPoint st.x st.y (if rel then st.x else 0) (if rel then st.y else 0) k cs)
+      (reflPt st.x st.y st.q) (if rel then st.x else 0) (if rel then st.y else 0) single ctx.nextT k1 cs1 =
+      stageQ (st.x, st.y) (endPoint st.x st.y (if rel then st.x else 0) (if rel then st.y else 0) k cs)
+      (refl (st.x, st.y) S.lq) (if rel then st.x else 0) (if rel then st.y else 0) single ctx.nextT k1 cs1 := by
+    cases hqq : isQuad k1 with
+    | true => rw [reflPt_eq, hq (by rw [← hqk1]; exact hqq)]
+    | false => rw [hQk.2 hqq, hQ.2.2 hqq]
+  rw [← epq] at hQ
+  -- lc after stage Q is still c'
+  have hlc2 : (stepCmd S ⟨(stageQ (st.x, st.y) (endPoint st.x st.y (if rel then st.x else 0) (if rel then st.y else 0) k cs)
+      (reflPt st.x st.y st.q) (if rel then st.x else 0) (if rel then st.y else 0) single ctx.nextT k1 cs1).2.1, rel,
+      vals (stageQ (st.x, st.y) (endPoint st.x st.y (if rel then st.x else 0) (if rel then st.y else 0) k cs)
+      (reflPt st.x st.y st.q) (if rel then st.x else 0) (if rel then st.y else 0) single ctx.nextT k1 cs1).2.2⟩).1.lc = c' := by
+    cases hqq : isQuad k1 with
+    | false => rw [hQk.2 hqq]; exact hC.2.1
+    | true =>
+      have hkc : isCubic k = false := by
+        rw [hqk1] at hqq
+        cases k <;> simp_all [isQuad, isCubic]
+      have hcnone : c' = none := by
+        have := hCk.2 hkc
+        simp only [Prod.mk.injEq] at this
+        exact this.1
+      rw [hcnone]
+      apply lc_noncubic S rel _ _ hQs.1
+      rw [hQk.1]
+      have := hCk.2 hkc
+      simp only [Prod.mk.injEq] at this
+      rw [this.2.1]; exact hkc
+  generalize hqr : stageQ (st.x, st.y) (endPoint st.x st.y (if rel then st.x else 0) (if rel then st.y else 0) k cs)
+      (reflPt st.x st.y st.q) (if rel then st.x else 0) (if rel then st.y else 0) single ctx.nextT k1 cs1 = qr at hQ hQk hQs hlc2
+  obtain ⟨q', k2, cs2⟩ := qr
+  simp only at hQ hQk hQs hlc2
+  have h02 : StageOK S rel k cs k2 cs2 := hC.1.trans hQ.1
+  have hae2 : endPoint st.x st.y (if rel then st.x else 0) (if rel then st.y else 0) k2 cs2 =
+      endPoint st.x st.y (if rel then st.x else 0) (if rel then st.y else 0) k cs := by
+    rcases endPoint_eq S rel st.x st.y hcur k2 cs2 hQs.1 with h | h
+    · rw [h, ha, h02.cur]
+    · exact absurd h hQs.1.2
+  have hL := stageL_sound S rel ctx.keepZero st.x st.y hcur k2 cs2 hQs.1
+  rw [hae2] at hL
+  have hLs := stageL_shaped (st.x, st.y) (endPoint st.x st.y (if rel then st.x else 0) (if rel then st.y else 0) k cs)
+    ctx.keepZero k2 cs2 hQs.1
+  have hrw : rewrite st k rel single cs ctx =
+      { c := c', q := q',
+        k := (stageL (st.x, st.y) (endPoint st.x st.y (if rel then st.x else 0) (if rel then st.y else 0) k cs) ctx.keepZero k2 cs2).1,
+        cs := (stageL (st.x, st.y) (endPoint st.x st.y (if rel then st.x else 0) (if rel then st.y else 0) k cs) ctx.keepZero k2 cs2).2.1,
+        skip := (stageL (st.x, st.y) (endPoint st.x st.y (if rel then st.x else 0) (if rel then st.y else 0) k cs) ctx.keepZero k2 cs2).2.2,
+        ax := (endPoint st.x st.y (if rel then st.x else 0) (if rel then st.y else 0) k cs).1,
+        ay := (endPoint st.x st.y (if rel then st.x else 0) (if rel then st.y else 0) k cs).2 } := by
+    simp only [rewrite, hcr, hqr]
+  rw [hrw]
+  refine ⟨by simp only; rw [← ha], hLs.1, ?_, ?_⟩
+  · intro hsk
+    simp only at hsk
+    obtain ⟨h1, h2, _⟩ := hL.2 hsk
+    refine ⟨by rw [← h02.segs]; exact h1, ?_⟩
+    simp only
+    show ((endPoint st.x st.y (if rel then st.x else 0) (if rel then st.y else 0) k cs).1,
+      (endPoint st.x st.y (if rel then st.x else 0) (if rel then st.y else 0) k cs).2) = S.cur
+    rw [ha, ← h02.cur, h2]
+  · intro hsk
+    simp only at hsk ⊢
+    have h3 := hL.1 hsk
+    refine ⟨⟨by rw [h3]; exact h02.segs, by rw [h3]; exact h02.cur, by rw [h3]; exact h02.start⟩, ?_, ?_⟩
+    · rw [h3]; exact hlc2
+    · rw [h3]; exact hQ.2.1
+
 end Verif.Proofs.SvgSound
